@@ -248,6 +248,22 @@ fn main() {
                     cx.lines.push(format!("C {}", p));
                 }
             }
+            Stmt::IfExists(p) => {
+                if std::fs::symlink_metadata(p).is_ok() {
+                    let rc = run(&["redo-ifchange".to_string(), p.clone()], None);
+                    if rc != 0 {
+                        cx.finish(rc);
+                    }
+                    let c = read_file(p);
+                    cx.lines.push(dep_line('D', p, c.as_deref()));
+                } else {
+                    let rc = run(&["redo-ifcreate".to_string(), p.clone()], None);
+                    if rc != 0 {
+                        cx.finish(rc);
+                    }
+                    cx.lines.push(format!("C {}", p));
+                }
+            }
             Stmt::Always => {
                 let rc = run(&["redo-always".to_string()], None);
                 if rc != 0 {
